@@ -99,6 +99,12 @@ D = {
     "C19d": ("Rattle.solve: W_cn is refreshed at the end of the step instead of before stage 2 (two sites)", "a force law in compliance form whose force direction W_c(q) changes during the motion: stage 2 kicks with W_c(q_n) la_c(q_n+1), first order, not reversible"),
     "C23e": ("Moment (inertial basis): A_IB instead of A_IB^T maps the moment to the body frame, h_q changed consistently", "a 3D inertial tip moment or a rotated placement: equilibria converge, frame indifference is lost"),
     "C28e": ("system_from_urdf: default inertial frame set once before the walk, overridden only when <inertial> has an <origin> (loop-carried R_r_RC, A_RB)", "a link whose <inertial> omits <origin>, processed after a link with a non-trivial inertial origin"),
+    "C05e": ("PositionOrientationBase.g_dot: `v = self.v_J2(...); v -= self.v_J1(...)` updates the array RigidBody.v_P holds in its cache", "subsystem 2 a RigidBody, subsystem 1 moving, and a second read of body 2's point velocity at the same state (two joints on one point, repeated call, finite differences over subsystem 1)"),
+    "C10e": ("set_reference_strains assigns self.Q = Q at its end instead of its beginning while its loops read self.Q", "an explicit set_reference_strains(Q_new) after construction: the reference strains lag one call behind"),
+    "C14e": ("CooMatrix.toarray fills a dense array by assignment (last write wins) instead of summing duplicates", "format='array' on a System matrix to which several contributions add at the same entries"),
+    "C20e": ("SolutionIterator treats a field whose last dimension equals the number of instants as stored column-wise", "a square field: as many stored instants as coordinates (3 instants of a point mass, 6 or 7 of a rigid body)"),
+    "C21e": ("fixed_point_iteration without the defensive copies (same slip as seeded/C22b, found independently)", "DualStormerVerlet(accelerated=False) with a step equation that is nonlinear in u: convergence is declared after one update, nothing raises"),
+    "C24e": ("System.set_new_initial_state writes into the contributions' existing q0 / u0 arrays (same idea as seeded/C09c, found independently)", "bodies created with one shared u0 array, or with integer-typed initial arrays"),
     "C22b": ("fixed_point_iteration calls fun(x) without the defensive copy", "a fixed-point map that updates its argument in place (DualStormerVerlet's own map with accelerated=False does)"),
 }
 rows = []
